@@ -34,7 +34,8 @@ def run(ctx, res):
     mres = prog.enums["mtbl_res"]
     OKV, FAILV = mres["mtbl_res_success"], mres["mtbl_res_failure"]
     res.floor("C01.R1", 8)
-    fmt.entry_emit_check(ctx, res, "C01.R1")
+    from . import bbrule as _bb
+    _bb.entry_encoding(ctx, res, "C01.R1")      # the entry row and block trailer, decided on the bytes produced (was: a shape recogniser)
     fmt.entry_parse_check(ctx, res, "C01.R1")
 
     # ---- R2 ------------------------------------------------------------------------
